@@ -2,10 +2,8 @@
 # usage: try_seed.sh <patch> <prop> [prop...]  -- apply a patch to /repo, run quick checks, undo
 p="$1"; shift
 cd /repo || exit 9
-if ! git apply --check "$p" 2>/dev/null; then
-  if ! git apply --3way --check "$p" 2>/dev/null; then echo "PATCH DOES NOT APPLY: $p"; exit 9; fi
-fi
-git apply "$p" 2>/dev/null || git apply --3way "$p"
+if ! git apply --check "$p" 2>/dev/null; then echo "PATCH DOES NOT APPLY: $p"; exit 9; fi
+git apply "$p"
 cd /verif
 for prop in "$@"; do
   /venv/bin/python -m sa check "$prop" | grep -v "^KNOWN-FINDING" | cut -c1-400
